@@ -246,8 +246,8 @@ theorem rawDecodeHeaderG_eq (ht : rawDecodeHeaderG?.isSome = true) (s : Bytes) :
 renders entities with exactly these names) -/
 theorem json_facts :
     jsonURLPrefix = httpPrefix ∧
-    entityFields = [("Host", "host", "string"), ("Method", "method", "string"), ("URI", "uri", "string"),
-      ("Headers", "headers", "map[string]string"), ("Tag", "tag", "string"), ("Body", "body", "string")] := by
+    entityFields = [("body", "string"), ("headers", "map[string]string"), ("host", "string"), ("method", "string"),
+      ("tag", "string"), ("uri", "string")] := by
   refine ⟨by decide, rfl⟩
 
 /-! ### round 4 — the provider side: registrations, `uris` option, delivery counters -/
